@@ -31,12 +31,14 @@ def exc_factory(name):
         'UniqueKeyError': lambda: tableschema.exceptions.UniqueKeyError('injected'),
         'DFValidationError': lambda: core.dataflows.ValidationError('r', {'a': 1}, 0, None),
         'OSError': lambda: OSError('injected'),
+        'UnicodeDecodeError': lambda: UnicodeDecodeError('utf-8', b'\xff', 0, 1, 'injected'),
+        'MemoryError': lambda: MemoryError('injected'),
     }[name]()
 
 
-QUICK_CLASSES = ['Private', 'CastError', 'CastErrorBare', 'StopIteration', 'UniqueKeyError']
+QUICK_CLASSES = ['Private', 'CastError', 'CastErrorBare', 'StopIteration', 'UniqueKeyError', 'UnicodeDecodeError']
 ALL_CLASSES = ['Private', 'ValueError', 'KeyError', 'AssertionError', 'StopIteration', 'CastError', 'CastErrorBare',
-               'TSValidationError', 'UniqueKeyError', 'DFValidationError', 'OSError']
+               'TSValidationError', 'UniqueKeyError', 'DFValidationError', 'OSError', 'UnicodeDecodeError', 'MemoryError']
 
 
 # ---- injection ------------------------------------------------------------------------------
